@@ -25,7 +25,7 @@ import numpy as np
 from rv import gen, oracle
 
 PLAN = {
-    "quick": {"cases": 300, "hashseeds": 3, "shards": 5, "timeout": 900, "min_nontrivial": 150},
+    "quick": {"cases": 228, "hashseeds": 3, "shards": 5, "timeout": 900, "min_nontrivial": 110},
     "thorough": {"cases": 1800, "hashseeds": 8, "shards": 2, "timeout": 4500, "min_nontrivial": 900},
 }
 if os.environ.get("RV_C09_CASES"):        # development aid: run only a prefix of the same case stream
